@@ -11,7 +11,9 @@ open Gonnx
 structure DT where
   dt : DType
   t : Tensor Int
-deriving Repr
+  fl : Option (Tensor Float) := none   -- float streams: the values as native floats (then `t` only carries the shape)
+
+instance : Inhabited Float := ⟨0.0⟩
 
 /-- parse one element; `none` when it is not an integer (NaN, Inf, fraction): outside the exact regime -/
 def parseElem (v : Json) : Option Int :=
@@ -29,13 +31,26 @@ def parseTensor (j : Json) : Option (Option DT) :=
   | _ =>
     let dt := dtOfString (getStr j "dt")
     let shape := jsonNats (getArr j "shape")
-    match (getArr j "data").toList.mapM parseElem with
-    | none => none
-    | some d => some (some ⟨dt, ⟨shape, d⟩⟩)
+    let bits := getArr j "bits"
+    if bits.size > 0 then
+      let fl : List Float := bits.toList.map fun b => Float.ofBits ((b.getNat?).toOption.getD 0).toUInt64
+      some (some ⟨dt, ⟨shape, []⟩, some ⟨shape, fl⟩⟩)
+    else
+      match (getArr j "data").toList.mapM parseElem with
+      | none => none
+      | some d => some (some ⟨dt, ⟨shape, d⟩, none⟩)
 
 def tensorJson (d : DT) : Json :=
-  Json.mkObj [("dt", dtToString d.dt), ("shape", Json.arr (d.t.shape.map (fun (n : Nat) => toJson n)).toArray),
-    ("data", Json.arr (d.t.data.map (fun (n : Int) => toJson n)).toArray)]
+  match d.fl with
+  | some f =>
+    Json.mkObj [("dt", dtToString d.dt), ("shape", Json.arr (f.shape.map (fun (n : Nat) => toJson n)).toArray),
+      ("bits", Json.arr (f.data.map (fun (x : Float) => toJson x.toBits.toNat)).toArray)]
+  | none =>
+    Json.mkObj [("dt", dtToString d.dt), ("shape", Json.arr (d.t.shape.map (fun (n : Nat) => toJson n)).toArray),
+      ("data", Json.arr (d.t.data.map (fun (n : Int) => toJson n)).toArray)]
+
+/-- a float result -/
+def DT.ofFloat (dt : DType) (f : Tensor Float) : DT := ⟨dt, ⟨f.shape, []⟩, some f⟩
 
 def optTensorJson : Option DT → Json
   | none => Json.null
